@@ -126,6 +126,18 @@ class Ctx:
         if self.check(bad, kind="verdict_checks"):
             m = self.solver.model()
             self.found.append((label, m))
+            if any(k.startswith("setorder#") for k in self.choices):
+                # the counterexample needs a particular set iteration order: collect a few more witnesses of the
+                # same path so that the replay can find one whose order real CPython exhibits
+                self.solver.push()
+                self.solver.add(bad)
+                for _ in range(5):
+                    self.solver.add(z3.Or(*[v != m.eval(v, model_completion=True) for v in self.vars.values()]))
+                    if not self.vars or not self.check(kind="verdict_checks"):
+                        break
+                    m = self.solver.model()
+                    self.found.append((label, m))
+                self.solver.pop()
 
     def assume(self, c):
         c = _zb(c)
@@ -952,3 +964,85 @@ class SymStr:
         raise Unsupported("ordering of symbolic text")
 
     __lt__ = __le__ = __gt__ = __ge__ = _ord
+
+
+# ------------------------------------------------------------------ dual-mode formula builders (harness side)
+# On plain Python values they compute plain bools/ints (fast concrete replay); on proxies / z3 terms they build z3.
+
+
+def V(x):
+    """value usable in comparisons: int stays int, SymInt -> its z3 term"""
+    t = type(x)
+    if t is SymInt:
+        return x.z
+    if t is SymBool:
+        return x.z
+    if t is bool or t is int:
+        return x
+    if z3.is_expr(x):
+        return x
+    raise Unsupported(f"V({t})")
+
+
+def Or_(*xs):
+    if len(xs) == 1 and type(xs[0]) in (list, tuple):
+        xs = xs[0]
+    rest = []
+    for x in xs:
+        x = V(x)
+        if type(x) is bool:
+            if x:
+                return True
+            continue
+        rest.append(x)
+    if not rest:
+        return False
+    return rest[0] if len(rest) == 1 else z3.Or(*rest)
+
+
+def And_(*xs):
+    if len(xs) == 1 and type(xs[0]) in (list, tuple):
+        xs = xs[0]
+    rest = []
+    for x in xs:
+        x = V(x)
+        if type(x) is bool:
+            if not x:
+                return False
+            continue
+        rest.append(x)
+    if not rest:
+        return True
+    return rest[0] if len(rest) == 1 else z3.And(*rest)
+
+
+def Not_(x):
+    x = V(x)
+    return (not x) if type(x) is bool else z3.Not(x)
+
+
+def If_(c, a, b):
+    c = V(c)
+    if type(c) is bool:
+        return a if c else b
+    a, b = V(a), V(b)
+    if type(a) is int:
+        a = z3.BitVecVal(a, W)
+    if type(b) is int:
+        b = z3.BitVecVal(b, W)
+    return z3.If(c, a, b)
+
+
+def Iff_(a, b):
+    a, b = V(a), V(b)
+    if type(a) is bool and type(b) is bool:
+        return a == b
+    if type(a) is bool:
+        return b if a else z3.Not(b)
+    if type(b) is bool:
+        return a if b else z3.Not(a)
+    return a == b
+
+
+def Xor_(a, b):
+    return Not_(Iff_(a, b))
